@@ -1,6 +1,166 @@
-"""Non-solver obligations (build clause, syntactic identity)."""
-EXTRAS = []
+"""Non-solver obligations: build clause (rustc is the checker), syntactic identity of
+the legacy f32 Q-ratio expression (with a native search when it differs), syntactic
+scan for interior mutability.  Never counted as discharged solver obligations."""
+import os
+import re
+import shutil
+
+from . import extract
+from .common import CRATE, sh, log
+
+EXTRAS = [
+    {"name": "syntactic:qratio_f32", "props": ["C01"], "quick": True},
+    {"name": "build:nostd", "props": ["C18"], "quick": True},
+    {"name": "syntactic:generator_no_interior_mutability", "props": ["C03"], "quick": True},
+]
+
+
 def select(prop, tier):
-    return [e for e in EXTRAS if prop in e["props"]]
+    return [e for e in EXTRAS if prop in e["props"] and (tier == "thorough" or e["quick"])]
+
+
+def base(name, kind, function, domain):
+    return {"name": name, "id": name, "backend": kind, "kind": kind, "config": "source", "harness": "", "replay_mode": "none",
+            "solver": "-", "bounded": None, "covers": None, "function": function, "domain": domain, "seconds": None,
+            "checks": 1, "cmd": "", "reason": ""}
+
+
+REF_F32 = "(((q.wrapping_mul(100) as f32) / q3 as f32) as u32 % 16) as u8"
+
+
+def norm(s):
+    return re.sub(r"\s+", "", s)
+
+
 def run(sc, e, tier):
+    try:
+        if e["name"] == "syntactic:qratio_f32":
+            return [qratio_f32(sc, tier)]
+        if e["name"] == "build:nostd":
+            return build_nostd(sc)
+        if e["name"] == "syntactic:generator_no_interior_mutability":
+            return [no_interior_mut(sc)]
+    except extract.ExtractError as ex:
+        r = base(e["name"], "syntactic", "", "")
+        r["verdict"] = "undecided"
+        r["reason"] = "extraction: %s" % ex
+        return [r]
     return []
+
+
+def qratio_f32(sc, tier):
+    from .verus_units import qratio_statement
+    r = base("syntactic:qratio_f32", "syntactic", "generate::Generator::finalize_with_options (legacy f32 Q-ratio arm)",
+             "NOT PROVED: binary32 divider equivalence is out of reach of the installed verifiers; decided by token identity with the frozen reference expression, else by a native search")
+    st = qratio_statement(sc)
+    want = "(" + REF_F32.replace("q.", "q1.").replace(" q3", " q3") + "," + REF_F32.replace("q.", "q2.") + ",)"
+    got = norm(st["f32"])
+    if got in (norm(want), norm(want).replace(",)", ")")):
+        r["verdict"] = "discharged"
+        r["reason"] = "f32 arm is token-identical to the reference expression for q in {q1,q2}"
+        return r
+    # tokens differ: search for a differing input natively (real expression vs reference)
+    hit, out = native_search(sc, st["f32"])
+    r["search"] = out[-2000:]
+    if hit:
+        r["verdict"] = "failed"
+        r["reason"] = "f32 Q-ratio arm differs from the reference formula on " + hit
+        r["failed_checks"] = [{"description": "qratio_f32 differs from reference: " + hit, "location": "fast-tlsh/src/generate.rs finalize_with_options"}]
+        r["counterexample"] = hit
+        r["replay_outcome"] = "reproduced"
+        r["verifier_output"] = out[-3000:]
+    else:
+        r["verdict"] = "undecided"
+        r["reason"] = "f32 arm tokens differ from the reference expression and the native search found no differing input: " + st["f32"].strip()[:300]
+    return r
+
+
+SEARCH_RS = r'''
+fn arm(q1: u32, q2: u32, q3: u32) -> (u8, u8) { let (q1ratio, q2ratio) = { __ARM__ }; (q1ratio, q2ratio) }
+fn reference(q: u32, q3: u32) -> u8 { (((q.wrapping_mul(100) as f32) / q3 as f32) as u32 % 16) as u8 }
+fn check(q1: u32, q2: u32, q3: u32) -> bool {
+    if q3 == 0 || q1 > q2 || q2 > q3 { return true; }
+    let r = std::panic::catch_unwind(|| arm(q1, q2, q3));
+    match r {
+        Ok((a, b)) => if a != reference(q1, q3) || b != reference(q2, q3) {
+            println!("MISMATCH q1={} q2={} q3={} got=({},{}) want=({},{})", q1, q2, q3, a, b, reference(q1, q3), reference(q2, q3)); false } else { true },
+        Err(_) => { println!("MISMATCH q1={} q2={} q3={} got=panic", q1, q2, q3); false }
+    }
+}
+fn main() {
+    std::panic::set_hook(Box::new(|_| {}));
+    let edges: [u32; 24] = [0, 1, 2, 3, 15, 16, 17, 99, 100, 101, (1 << 24) - 1, 1 << 24, (1 << 24) + 1, 42_949_672, 42_949_673, 42_949_674,
+        (1u32 << 31) - 1, 1 << 31, (1u32 << 31) + 1, u32::MAX - 1, u32::MAX, 167_772_16, 1_000_000_007, 3_000_000_000];
+    for &a in &edges { for &b in &edges { for &c in &edges { if !check(a, b, c) { return; } } } }
+    let mut s: u64 = 0x9E37_79B9_7F4A_7C15 ^ __SEED__;
+    let mut next = || { s ^= s << 13; s ^= s >> 7; s ^= s << 17; s };
+    for _ in 0..10_000_000u32 {
+        let mut v = [next() as u32 >> (next() % 32) as u32, next() as u32 >> (next() % 32) as u32, next() as u32 >> (next() % 32) as u32];
+        v.sort();
+        if !check(v[0], v[1], v[2]) { return; }
+    }
+    println!("NO-MISMATCH");
+}
+'''
+
+
+def native_search(sc, arm):
+    wd = os.path.join(sc.root, "qsearch")
+    os.makedirs(wd, exist_ok=True)
+    seed = int(os.environ.get("VERIF_SEED", "0") or 0)
+    with open(os.path.join(wd, "s.rs"), "w") as fh:
+        fh.write(SEARCH_RS.replace("__ARM__", arm).replace("__SEED__", str(seed)))
+    rc, out, _ = sh(["rustc", "-O", "-C", "overflow-checks=on", "-o", "s", "s.rs"], cwd=wd, timeout=300)
+    if rc != 0:
+        return None, "search program did not compile: " + out[-1500:]
+    rc, out, _ = sh(["./s"], cwd=wd, timeout=600)
+    m = re.search(r"MISMATCH (.*)", out)
+    return (m.group(1) if m else None), out
+
+
+def build_nostd(sc):
+    recs = []
+    for feats, label in (("", "no std, no alloc"), ("alloc", "alloc only")):
+        r = base("build:nostd" + (".alloc" if feats else ""), "build", "crate fast-tlsh", "cargo build --no-default-features " + ("--features alloc" if feats else "") + " (" + label + ")")
+        tdir = os.path.join(sc.root, "target-nostd")
+        # extras run before the Kani overlay is applied: sc.repo is the pristine copy of /repo
+        cmd = ["cargo", "build", "--manifest-path", os.path.join(sc.repo, CRATE, "Cargo.toml"), "--offline",
+               "--no-default-features", "--target-dir", tdir, "--lib"]
+        if feats:
+            cmd += ["--features", feats]
+        rc, out, secs = sh(cmd, cwd=sc.root, timeout=900)
+        r["seconds"] = round(secs, 1)
+        r["cmd"] = " ".join(cmd)
+        if rc == 0:
+            r["verdict"] = "discharged"
+        else:
+            r["verdict"] = "failed"
+            r["reason"] = "library does not build without std" + ("" if feats else " and alloc") + ": " + first_error(out)
+            r["failed_checks"] = [{"description": r["reason"][:300], "location": "cargo build"}]
+            r["verifier_output"] = out[-4000:]
+        recs.append(r)
+    return recs
+
+
+def first_error(out):
+    m = re.search(r"^(error(\[E\d+\])?: .*(?:\n.*){0,6})", out, re.M)
+    return (m.group(1) if m else out[-600:]).replace("\n", " | ")[:900]
+
+
+def no_interior_mut(sc):
+    r = base("syntactic:generator_no_interior_mutability", "syntactic", "generate.rs / buckets.rs / hash/checksum.rs (generator state types)",
+             "source scan: finalize takes &self, so it can only disturb the generator through interior mutability")
+    bad = []
+    for f in ("generate.rs", "buckets.rs", "hash/checksum.rs"):
+        p = os.path.join(sc.repo, CRATE, "src", f)
+        txt = open(p).read()
+        code = "\n".join(l for l in txt.split("\n") if not l.strip().startswith("//"))
+        for pat in (r"\bCell<", r"\bRefCell<", r"\bUnsafeCell<", r"\bstatic\s+mut\b", r"\bAtomic[A-Z]\w*", r"\bMutex<", r"\bRwLock<", r"\bOnceCell<"):
+            if re.search(pat, code):
+                bad.append("%s: %s" % (f, pat))
+    if bad:
+        r["verdict"] = "undecided"
+        r["reason"] = "interior mutability constructs present; the '&self cannot disturb' argument needs review: " + ", ".join(bad)
+    else:
+        r["verdict"] = "discharged"
+    return r
